@@ -116,6 +116,8 @@ def rad50(state, string: str) -> bytes:
             string = get_as_str(state, "'.rad50' operand", state["insn"], chunk)
             for char in string:
                 try:
+                    if len(char.upper()) != 1:
+                        raise ValueError(char)
                     val = radix50.TABLE.index(char.upper())
                 except ValueError:
                     reports.error(
